@@ -971,6 +971,14 @@ def parse_invalid_expr(s, loc, toks):
 @parse_action(atom)
 def parse_atom(toks):
     loc_start, toks, loc_end = toks
+    if len(toks) > 1 and toks[0] in ('-', '+'):
+        # signs directly in front of an atom (as in "2 ^ -1")
+        node = toks[-1]
+        for op in reversed(toks[:-1]):
+            node = UnaryOp(node, Operator.unary_op_from_token(op))
+            node.loc_start = loc_start
+            node.loc_end = loc_end
+        return node
     return toks
 
 
